@@ -182,12 +182,49 @@ def warm_up():
     enc_type(yaqltypes.PythonType(object, True))
 
 
+REJECTED = (4, 9, 13)     # corpus indices a Picky type turns down when CONVERTING: the second D, 'bb', the G
+
+
+class Picky(yaqltypes.PythonType):
+    """a smart type in the style of a date / identifier / JSON string type: `check()` is PythonType's (the class of the
+    value), `convert()` validates the VALUE and raises ArgumentValueException for the ones it turns down - so a call
+    can pass resolution and fail in the chosen overload's argument conversion"""
+    __slots__ = tuple()
+
+    def convert(self, value, receiver, context, function_spec, engine, *args, **kwargs):
+        value = super().convert(value, receiver, context, function_spec, engine, *args, **kwargs)
+        if any(value is CORPUS[i] for i in REJECTED) or (type(value) is str and value == CORPUS[9]):
+            raise exceptions.ArgumentValueException()
+        return value
+
+
+def picky_rows(fds):
+    """for the model of the phase after choose_overload: [[fid, [positions], [keyword keys], star]] of the parameters
+    whose type validates in convert()"""
+    rows = []
+    for fid, fd in sorted(fds.items()):
+        ps, ks, star = [], [], False
+        for key, p in fd.parameters.items():
+            if isinstance(p.value_type, Picky):
+                if key == '*':
+                    star = True
+                elif p.position is not None:
+                    ps.append(p.position)
+                elif key != '**':
+                    ks.append(key)
+        if ps or ks or star:
+            rows.append([fid, ps, ks, star])
+    return rows
+
+
 def make_type(ts):
     """ts: None (undeclared) | 'String' .. | ['py', clsname, nullable] | ['py', [clsname, ..], nullable] (a tuple of
-    classes, as `Number()` has)"""
+    classes, as `Number()` has) | ['picky', clsname, nullable] (a PythonType subclass whose convert() validates)"""
     if ts is None:
         return None
     if isinstance(ts, (list, tuple)):
+        if ts[0] == 'picky':        # ['picky', clsname, nullable]: the class decides check(), convert() validates the value
+            return Picky(LATTICE[ts[1]], ts[2])
         if isinstance(ts[1], (list, tuple)):
             return yaqltypes.PythonType(tuple(LATTICE[c] for c in ts[1]), ts[2])
         return yaqltypes.PythonType(LATTICE[ts[1]], ts[2])
